@@ -10,7 +10,7 @@
 From stdpp Require Import gmap list.
 From Coq Require Import NArith.
 From BS Require Import Abs.Entities Abs.EntitiesProofs.
-From BS Require Sync.Types Sync.Model Sync.Observe Sync.Proofs.Tracker Sync.Proofs.UuidStable.
+From BS Require Sync.Types Sync.Model Sync.Observe Sync.Proofs.Hierarchy Sync.Proofs.Tracker Sync.Proofs.UuidStable Sync.Proofs.Unique.
 Local Open Scope N_scope.
 
 (* uniqueness: on EVERY run (also inside the known defect classes) no peer holds a uuid twice; the
@@ -117,6 +117,26 @@ Theorem C01_marking_a_replica_changes_its_uuid :
     Model.p_ents pr2 !! e = Some en' /\ Types.en_sync en' = Some u' /\ u <> u'.
 Proof. exact UuidStable.uuid_changes_when_a_replica_is_marked. Qed.
 
+(* "... holds exactly one live entity for each surviving uuid": the "at most one" half on the frame-level
+   model (Sync/Proofs/Unique.v). No peer ever holds two live entities with one uuid in any run in which
+   every EntitySpawn that arrives is fresh (spawns_fresh: a decidable check of every frame's inboxes - on a
+   hosting peer the uuid has no holder yet and is announced once, on a client every holder is the one the
+   tracker names or the uuid is tombstoned, no delete of it waits in front). That announcements ARE fresh is
+   what the event-level theorem C01_host_never_receives_duplicate above establishes for the protocol; the
+   premise is not audited on the real runs (the entity oracle looks for duplicate entities there). *)
+Theorem C01_at_most_one_entity_per_uuid :
+  forall n tr, UuidStable.uuid_conforming n tr -> Unique.spawns_fresh n tr ->
+    forall p pr, Model.grun (Observe.init_global n) tr !! p = Some pr -> Unique.uuid_unique pr.
+Proof. exact Unique.grun_uuid_unique. Qed.
+
+(* the premise is needed on this model: script entities are identified by the id the application chose, and two
+   peers that mark the same id announce the same uuid (the real code draws random uuids: the harness never
+   re-uses a handle); a host has no duplicate guard *)
+Theorem C01_duplicate_announcements_make_duplicates :
+  exists n tr p pr, UuidStable.uuid_conforming n tr /\ Hierarchy.hier_conforming n tr /\
+                    Model.grun (Observe.init_global n) tr !! p = Some pr /\ ~ Unique.uuid_unique pr.
+Proof. exact Unique.uuid_unique_refuted. Qed.
+
 Print Assumptions C01_entities_unique.
 Print Assumptions C01_host_never_receives_duplicate.
 Print Assumptions C01_entities_converge.
@@ -130,3 +150,5 @@ Print Assumptions C01_unrestricted_is_false.
 Print Assumptions C01_an_id_never_stands_for_two_uuids.
 Print Assumptions C01_uuid_never_changes.
 Print Assumptions C01_marking_a_replica_changes_its_uuid.
+Print Assumptions C01_at_most_one_entity_per_uuid.
+Print Assumptions C01_duplicate_announcements_make_duplicates.
